@@ -169,14 +169,18 @@ fsrc_octet(void *drv, void *out)
  * endpoints/core.c uses it: a scratch buffer the source's octets are read into before they go to the sink) */
 static int fsrc_allow_idle;
 static size_t fsrc_window;
-static unsigned char fsrc_win[80];
+static unsigned char fsrc_win[2][80];
+static unsigned fsrc_bank;
 
 static ByteBuffer
 fsrc_getbuffer(Source *src)
 {
     (void)src;
     ByteBuffer b;
-    byte_buffer_use(&b, fsrc_win, fsrc_window);
+    /* double-buffered: every call lends the other bank */
+    memset(fsrc_win[fsrc_bank & 1u], 0xEE, sizeof fsrc_win[0]);
+    fsrc_bank++;
+    byte_buffer_use(&b, fsrc_win[fsrc_bank & 1u], fsrc_window);
     return b;
 }
 
